@@ -41,7 +41,7 @@ MAX_DEPTH = 8
 
 class Ctx:
     """analysis context of one function activation"""
-    __slots__ = ('func', 'cls', 'recv', 'bind', 'depth', 'aliases', 'stack')
+    __slots__ = ('func', 'cls', 'recv', 'bind', 'depth', 'aliases', 'stack', 'nested_active')
 
     def __init__(self, func, cls, recv, bind, depth, stack):
         self.func = func
@@ -51,6 +51,7 @@ class Ctx:
         self.depth = depth
         self.stack = stack
         self.aliases = None
+        self.nested_active = None
 
 
 class Protocol:
@@ -743,8 +744,49 @@ class Protocol:
         if isinstance(node, ast.Call):
             out.append(node)
 
+    def nested_call(self, ctx, call, configs):
+        """a call of a closure defined inside the current function (`def apply_rules(rules): ...` + `apply_rules(x)`): its body runs in the
+        caller's scope; parameters are replaced by the argument expressions (result of an "extract local function" refactoring)"""
+        import copy as _copy
+        nd = None
+        for n in ast.walk(ctx.func.node):
+            if isinstance(n, (ast.FunctionDef,)) and n is not ctx.func.node and n.name == call.func.id:
+                nd = n
+        active = getattr(ctx, 'nested_active', None)
+        if active is None:
+            active = ctx.nested_active = set()
+        if nd is None or nd.name in active or nd.args.vararg or nd.args.kwarg or call.keywords or len(call.args) != len(nd.args.args):
+            return None
+        m = {a.arg: v for a, v in zip(nd.args.args, call.args)}
+
+        class S(ast.NodeTransformer):
+            def visit_Name(self, node):
+                if node.id in m and isinstance(node.ctx, ast.Load):
+                    return _copy.deepcopy(m[node.id])
+                return node
+        body = [S().visit(_copy.deepcopy(st)) for st in strip_doc(nd.body)]
+        for st in body:
+            ast.fix_missing_locations(st)
+        sub_exits = set()
+        saved = self._loop_exits
+        self._loop_exits = []
+        active.add(nd.name)
+        try:
+            end = self.walk_body(ctx, body, configs, sub_exits)
+        finally:
+            active.discard(nd.name)
+            self._loop_exits = saved
+        out = set(end)
+        for kind, _, c, rv in sub_exits:
+            if kind in ('return', 'end') and c is not None:
+                out.add(c)
+        return frozenset(out)
+
     def do_call(self, ctx, call, configs, exits):
         f = call.func
+        if isinstance(f, ast.Name):
+            r = self.nested_call(ctx, call, configs)
+            return configs if r is None else r
         if not isinstance(f, ast.Attribute):
             return configs
         name = f.attr
